@@ -8,8 +8,8 @@ through Yield), the commander / high-level commander only record (name, virtual 
 Oracle (written from the statement, never from the formulas of the code):
   MotionCommander
    E  when the context is left / land() returns or raises: the commander log ends with send_stop_setpoint,
-      send_notify_setpoint_stop; no hover setpoint is streamed in the following 3 update periods; nothing but hover
-      setpoints was sent before
+      send_notify_setpoint_stop; no hover setpoint is streamed in the following 3 update periods; the setpoint task is dead;
+      a second land() sends nothing
    P  consecutive hover setpoints (and the last one and the stop) are at most one update period apart
    Z  the first streamed height is 0 and  z[i+1] == z[i] + vz * (t[i+1] - t[i])  where vz is the vertical velocity of the
       motion command in force at t[i] (as handed to the setpoint task)
@@ -19,9 +19,10 @@ Oracle (written from the statement, never from the formulas of the code):
       incl. 0 and negative, angle >= 0, radius > 0)
    V  for every start_*/stop primitive: the streamed velocity in force afterwards is the requested one
   PositionHlCommander
-   get_position() == start + sum of requested displacements after every primitive; every go_to sent targets that position,
-   yaw 0, duration >= 0 with (duration * velocity)^2 == |displacement|^2; leaving the context / land() ends the log with
-   land(landing height, duration) , stop and get_position() z == landing height.
+   get_position() == start + sum of requested displacements after every primitive (take-off: z = the height asked for);
+   at most one command per primitive, none only if the displacement is 0, else an absolute go_to to that position with
+   duration >= 0 and (duration * velocity)^2 == |displacement|^2; leaving the context / land() ends the log with
+   land(landing height, .), stop and get_position() z == landing height; a second land() sends nothing.
 
 Numbers: float_model='real'.  Every symbolic quantity is an exact real; equalities are exact in the symbolic run.  In the
 concrete replay (IEEE doubles) equalities are taken with tolerance 1e-9 (float rounding is outside the claim)."""
@@ -43,7 +44,9 @@ STUBS = ['name `time` in motion_commander / position_hl_commander -> virtual clo
          'name `Queue` in motion_commander -> FakeQueue: get(timeout) times out exactly at the deadline of the wait or yields',
          'threading.Thread.start/join/is_alive: no OS thread; _SetPointThread.run is the real body, executed as a task',
          'cf.commander / cf.high_level_commander / cf.param: recording stand-ins (wire format of the commands is C08)',
-         'math.sqrt on exact reals: fresh r >= 0 with r*r == x (vf/plugins/mathfn.py)']
+         'math.sqrt on exact reals: fresh r >= 0 with r*r == x (vf/plugins/mathfn.py), plus the implied fact r == |t| when x is '
+         'syntactically t*t (vf/env/c17_env.py; redundant constraint, spares the solver non-linear reasoning)',
+         'the instant the flight starts is a symbolic real (all clock arithmetic stays exact in the real-number model)']
 ASSUMPTIONS = ['context switches only at blocking calls; the setpoint task is scheduled either as soon as an event is queued '
                '("eager") or when the commanding thread blocks ("lazy"); both are explored',
                'Queue.get(timeout=p) returns exactly p after the wait began (no scheduling jitter)',
@@ -118,6 +121,34 @@ def _and(*conds):
     from crosshair.tracers import NoTracing
     with NoTracing():
         return SymbolicBool(z3.And(*[c.var for c in sym]))
+
+
+def _known(sym, final=False):
+    """Known-finding predicates (known_findings.json) over inputs that only exist on some paths: each predicate is applied as
+    soon as every name it mentions exists on this path (BaseSym.apply_known wants all names at one point)."""
+    if not sym.known and sym.only is None:
+        return
+    ns = dict(sym.values_ns())
+    G = {'__builtins__': {'any': any, 'all': all, 'range': range, 'len': len, 'abs': abs}}
+    done = sym.notes.setdefault('_known_done', set())
+    for j, pred in enumerate(sym.known):
+        if j in done:
+            continue
+        try:
+            v = eval(pred, G, ns)
+        except NameError:
+            continue
+        done.add(j)
+        sym.assume(not v)
+    if sym.only is not None and 'only' not in done:
+        try:
+            v = eval(sym.only, G, ns)
+        except NameError:
+            if final:
+                sym.assume(False)          # this path never enters the region of the finding
+            return
+        done.add('only')
+        sym.assume(v)
 
 
 # ------------------------------------------------------------------------------------------------ MotionCommander programs
@@ -233,6 +264,7 @@ def mc_step(sym, i, kind, mc, clock):
         raise AssertionError(kind)
     w = sym.real(f'w{i}', 0.0, span) if idle else None
     spec.update(kind=kind, idle=w, raised=None)
+    _known(sym)
     q = clock.queues[-1] if clock.queues else None
     spec['put0'] = q.nput if q else 0
     try:
@@ -266,7 +298,7 @@ def h_mc(sym):
         mc = MotionCommander(cf)
     kinds = B['kinds']
     n = sym.choice('n', len(kinds) + 1) if B.get('varlen', True) else len(kinds)
-    sym.apply_known()
+    _known(sym)
     specs = []
     flight_exc = None
     rm = B.get('raise_mode', 'sym')
@@ -309,6 +341,7 @@ def h_mc(sym):
             raise
         flight_exc = type(e).__name__
 
+    _known(sym, final=True)
     # ---- E: the flight ended on the ground command, whatever happened
     n_end = len(log)
     started = bool(clock.queues) or n_end > 0
@@ -316,7 +349,6 @@ def h_mc(sym):
         names = [e[0] for e in log]
         assert names[-2:] == ['stop', 'notify'], f'flight left (exception: {flight_exc}) without stop + notify at the end of the ' \
                                                  f'command stream: ...{names[-3:]}'
-        assert all(x == 'hover' for x in names[:-2]), ('unexpected command in the stream', [x for x in names[:-2] if x != 'hover'][:3])
     clock.sleep(3 * PERIOD)
     assert len(log) == n_end, f'{len(log) - n_end} hover setpoint(s) streamed after the flight was left (exception: {flight_exc})'
     if flight_exc is None:
@@ -329,7 +361,7 @@ def h_mc(sym):
     sym.goal('landed')
 
     # ---- P, Z, D, V on the hover stream
-    hov = log[:-2]
+    hov = [e for e in log[:-2] if e[0] == 'hover']
     stop_t = log[-2][1]
     q = clock.queues[-1]
     assert not q.items
@@ -346,7 +378,8 @@ def h_mc(sym):
         if tag == 0:
             return 0.0
         ev = q.taken[tag - 1][1]
-        assert isinstance(ev, tuple) and len(ev) == 4, ev
+        if not (isinstance(ev, tuple) and len(ev) == 4):
+            raise Inconclusive('the events handed to the setpoint task are no longer (vx, vy, vz, yaw rate) tuples')
         return ev[2]
     ck.eq(S[0][3], 0.0, 'Z: first streamed height is not 0')
     for i in range(len(hov) - 1):
@@ -433,7 +466,7 @@ def h_phl(sym):
     kinds = B['kinds']
     n = sym.choice('n', len(kinds) + 1) if B.get('varlen', True) else len(kinds)
     explicit = B.get('mode', 'with') == 'explicit'
-    sym.apply_known()
+    _known(sym)
     ck = Checks(sym)
     pos = list(start)
     flight_exc = None
@@ -490,6 +523,7 @@ def h_phl(sym):
         else:
             raise AssertionError(kind)
         new = hl[n0:]
+        _known(sym)
         if target is None:
             assert not new, 'a settings change sent a command'
         else:
@@ -552,12 +586,11 @@ def h_phl(sym):
         if _is_control(e):
             raise
         flight_exc = type(e).__name__
+    _known(sym, final=True)
     names = [e[0] for e in hl]
-    assert names[:1] == ['takeoff'], names[:2]
     assert names[-2:] == ['land', 'stop'], f'flight left (exception: {flight_exc}) without land + stop at the end of the command ' \
                                            f'stream: ...{names[-3:]}'
-    assert flight_exc is None, f'take-off / landing raised {flight_exc}'
-    assert all(x == 'go_to' for x in names[1:-2])
+    assert flight_exc is None, f'the flight raised {flight_exc}'
     la = hl[-2][2]
     ck.eq(la[0], land_h, 'land: not to the landing height')
     pos[2] = land_h
@@ -586,14 +619,14 @@ def _single(name, kinds, goals, sched='any', t=(280, 1700), **extra):
     return Harness(f'mc1[{name}]', h_mc, quick=dict(kinds=[kinds], periods=6, sched=sched, **extra), timeout=t, goals=goals, **_REAL)
 
 
-def _singlev(name, kinds, goals, sched='any', **extra):
-    return Harness(f'mc1v[{name}]', h_mc, quick=dict(kinds=[kinds], periods=6, sched=sched, symv=True, **extra), timeout=(1700, 1700),
-                   tiers=('thorough',), goals=goals, **_REAL)
+def _singlev(name, kinds, goals, sched='any', tiers=('thorough',), **extra):
+    return Harness(f'mc1v[{name}]', h_mc, quick=dict(kinds=[kinds], periods=6, sched=sched, symv=True, **extra), timeout=(280, 1700),
+                   tiers=tiers, goals=goals, **_REAL)
 
 
 def _pair(first, sched, raise_mode):
-    q = dict(kinds=[[first], _PAIR2], periods=2, sched=sched, varlen=False, raise_mode=raise_mode, **_NOALT)
-    th = dict(kinds=[[first], _PAIR2], periods=4, sched=sched, varlen=False, raise_mode=raise_mode, **_NOALT)
+    q = dict(kinds=[[first], _PAIR2], periods=3, sched=sched, varlen=False, raise_mode=raise_mode, **_NOALT)
+    th = dict(kinds=[[first], _PAIR2], periods=5, sched=sched, varlen=False, raise_mode=raise_mode, **_NOALT)
     goals = ('landed', 'blocking') if first in ALL_BLOCK else ('landed', 'non-blocking')
     return Harness(f'mc2[{first}]', h_mc, quick=q, thorough=th, timeout=(280, 1700),
                    goals=goals + (('body-raised',) if raise_mode == 'yes' else ()), **_REAL)
@@ -615,11 +648,11 @@ HARNESSES = [
     _single('start-linear', ALL_START[:6], _G1S),
     _single('start-other', ALL_START[6:], _G1S),
     # thorough: the same single-primitive programs with symbolic velocities / rates (and all three components of move_distance)
-    _singlev('horizontal', ['forward', 'back', 'left', 'right'], _G1),
+    _singlev('horizontal', ['forward', 'back', 'left', 'right'], _G1, tiers=('quick', 'thorough')),
     _singlev('vertical,eager', ['up', 'down'], _G1, sched='eager'),
     _singlev('vertical,lazy', ['up', 'down'], _G1, sched='lazy'),
-    _singlev('move', ['move'], _G1, sched='eager', move_sym=3, raise_mode='no'),
-    _singlev('turn,circle', ['turn_left', 'turn_right', 'circle_left', 'circle_right'], _G1),
+    _singlev('move', ['move'], ('landed', 'blocking', 'streamed-during-primitive'), sched='eager', move_sym=3, raise_mode='no'),
+    _singlev('turn,circle', ['turn_left', 'turn_right', 'circle_left', 'circle_right'], _G1, tiers=('quick', 'thorough')),
     _singlev('start-linear', ALL_START[:6], _G1S),
     _singlev('start-other', ALL_START[6:], _G1S),
     # take-off height symbolic (0 included): as constructor default inside `with`, and as argument of take_off() ... land()
@@ -651,9 +684,9 @@ HARNESSES += [
             timeout=(280, 1700), goals=('landed', 'go_to', 'zero-move', 'body-raised'), **_REAL),
     Harness('phl3', h_phl, quick=dict(kinds=[['up', 'go_to', 'set_default_velocity', 'set_default_height'],
                                              ['move', 'go_to_default_z', 'left', 'set_landing_height'],
-                                             ['down', 'go_to', 'go_to_default_z', 'back']], ctor_args=False, varlen=False),
+                                             ['down', 'go_to', 'go_to_default_z', 'back']], ctor_args=False, varlen=False, step_v=False),
             timeout=(1700, 1700), tiers=('thorough',), goals=('landed', 'go_to', 'zero-move', 'body-raised'), **_REAL),
-    Harness('phl4', h_phl, quick=dict(kinds=[['up', 'set_default_velocity'], ['go_to', 'set_default_height'], ['go_to_default_z', 'forward'],
-                                             ['down', 'move']], ctor_args=False, varlen=False),
+    Harness('phl4', h_phl, quick=dict(kinds=[['up', 'set_default_height'], ['go_to', 'set_landing_height'], ['go_to_default_z', 'forward'],
+                                             ['down', 'move']], ctor_args=False, varlen=False, step_v=False),
             timeout=(1700, 1700), tiers=('thorough',), goals=('landed', 'go_to', 'zero-move', 'body-raised'), **_REAL),
 ]
